@@ -240,8 +240,17 @@ def mk_labware(s):
     return Labware(s["name"], 1, s["cols"], virtual_rows=s["vrows"], **kw)
 
 
+
+
+def _layout(a):
+    """every other 2-D argument is handed over in column-major (Fortran) memory layout: same content, same shape -
+    results must not depend on the memory layout of an argument"""
+    if isinstance(a, np.ndarray) and a.ndim == 2 and min(a.shape) > 1 and (a.shape[0] + a.shape[1]) % 2 == 0:
+        return np.asfortranarray(a)
+    return a
+
 def arg(x, nd):
-    return np.array(x) if nd and isinstance(x, list) else x
+    return _layout(np.array(x)) if nd and isinstance(x, list) else x
 
 
 def call(op, LW, WL):
